@@ -273,7 +273,12 @@ def c11(ctx):
                         done = []
                         inject = [victim, at]
                         stats['midscan_injections'] += 1
+                    fd0 = ET.fd_count()
                     ra = run_cli(['update', '-i', '-H', ' '.join(hashes), a], t_now, tz, key, mk_hook(a) if inject else None)
+                    if ET.fd_count() > fd0:
+                        stats['descriptor_leaks'] = stats.get('descriptor_leaks', 0) + 1
+                        ctx.violation('spec', f'update --incremental leaves {ET.fd_count() - fd0} file descriptors open (one per skipped file: EMFILE on large trees, '
+                                      'where the full update succeeds)', {'tz': tz, 'hashes': hashes, 'history': history})
                     rb = run_cli(['update', '-H', ' '.join(hashes), b], t_now, tz, key, mk_hook(b) if inject else None)
                     la, lb = listing(a), listing(b)
                     if inject and done:
